@@ -54,8 +54,10 @@ theorem tagged_good {name : Key} {inner : SerFields} (h : PayGood outerKeys inne
   · intro fs' e
     cases e
     rw [hobj]
-    simp only [Json.inRangeObj, specFor_bds, Bool.and_eq_true]
-    exact ⟨by simp [Json.inRange], hr fs rfl⟩
+    simp only [Json.inRangeObj, Bool.and_eq_true]
+    refine ⟨?_, hr fs rfl⟩
+    spec_eval
+    simp [Json.inRange]
 
 theorem unused_good (s : Rd) : post unused (fun r _ => PayGood outerKeys r) s := by
   unfold unused
